@@ -88,7 +88,7 @@ impl Gen<'_> {
 
     fn cmd(&mut self, depth: u32, nested: bool) -> Cmd {
         let mut c = Cmd { lines: vec![], tags: vec![], out: String::new(), heredoc: false, continuation: false, subst_tags: vec![] };
-        let top = if depth >= 2 { 6 } else { 47 };
+        let top = if depth >= 2 { 6 } else { 48 };
         match self.rng.below(top) {
             0..=2 => {
                 let (l, t) = self.probe_line();
@@ -419,6 +419,14 @@ impl Gen<'_> {
                 c.lines.push("echo $(( 1 + \\".to_string());
                 c.lines.push("2 ))".to_string());
                 c.out = "3\n".into();
+                c.continuation = true;
+            }
+            47 => {
+                // a line ending in three backslashes: an escaped backslash, then a continuation
+                let i = self.id();
+                c.lines.push(format!("echo three{i}\\\\\\"));
+                c.lines.push("-joined".to_string());
+                c.out = format!("three{i}\\-joined\n");
                 c.continuation = true;
             }
             45 if !nested => {
